@@ -66,14 +66,17 @@ class cpu_limit(object):
     """a solve that spins without attempting a line or asking anything (so that neither the attempt counter nor the prompt
     counter sees it) is cut off after SOLVE_CPU_SECONDS of processor time and reported as non-termination"""
 
+    def __init__(self, seconds=None):
+        self.seconds = seconds or SOLVE_CPU_SECONDS
+
     def __enter__(self):
         import signal, threading
         self.on = threading.current_thread() is threading.main_thread()
         if self.on:
             def fire(signum, frame):
-                raise NonTermination(f'solve() used more than {SOLVE_CPU_SECONDS} s of processor time')
+                raise NonTermination(f'solve() used more than {self.seconds} s of processor time')
             self.old = signal.signal(signal.SIGVTALRM, fire)
-            signal.setitimer(signal.ITIMER_VIRTUAL, SOLVE_CPU_SECONDS)
+            signal.setitimer(signal.ITIMER_VIRTUAL, self.seconds)
         return self
 
     def __exit__(self, *a):
